@@ -83,7 +83,9 @@ def fmt_cases(tier):
     for f in fields:
         for a in FMT_ARGS:
             out.append((repr("x" + f + "y"), a))
-    two = ["{}", "{0}", "{1}", "{a}", "{0.real}", "{!r}", "{:>4}", "{{", "}}", "{", "}", "{0[0]}", "{:{}}", "{b}"]
+    two = ["{}", "{0}", "{1}", "{a}", "{0.real}", "{!r}", "{:>4}", "{{", "}}", "{", "}", "{0[0]}", "{:{}}", "{b}",
+           # field names that look like numbers to int() but are names (or not) to CPython's parser
+           "{+0}", "{ 0}", "{-1}", "{1_0}", "{00}", "{0:{+1}}", "{\u00b2}", "{\u0661}"]
     if tier == "thorough":
         two += ["{2}", "{a.real}", "{a[0]}", "{0!s:>3}", "{:d}", "{!x}", "{0:{1}}", "{:{a}}", "{0.}", "{[}", "{0 }", "{a!r:}"]
     for f1, f2 in itertools.product(two, repeat=2):
